@@ -7,9 +7,9 @@ package backend
 // and Slice.getConnWithFuse/TryFuse (fake pools, virtual clock of hook H1) on a slice with a
 // master that is up and one replica. After every elementary action the replica's status is
 // read and judged by necessary conditions + bounded progress taken from the statement:
-//   hard:    no down->up at clock < (time the breaker took the node down) + cool-down;
-//            a successful round at clock >= (latest time the breaker fired) + cool-down
-//            leaves the node up.
+//   hard:    no down->up at clock < (LATEST time the breaker fired for the node, including
+//            firings while it was already down) + cool-down; a successful round at
+//            clock >= that instant leaves the node up.
 //   gradual: at a down->up transition of a node the breaker took down, the number of
 //            consecutive successful rounds since it was taken down / since the last failed
 //            round is >= the penalty in force P(k) = min(n(n+1)/2,120), n = 3+k, k = number
@@ -188,6 +188,9 @@ func c27Run(c c27Case) ([]*c27Fail, c27Obs) {
 				fail("up-without-successful-probe", fmt.Sprintf("t=%d", t))
 			case fusedDown && c.Policy == "hard" && t < takenDown+c.Cool:
 				fail("hard/up-before-cooldown", fmt.Sprintf("fused at %d, cool-down %d, marked up at %d", takenDown, c.Cool, t))
+			case fusedDown && c.Policy == "hard" && t < latestTrigger+c.Cool:
+				// "the configured cool-down since its LATEST fuse": the breaker fired again while the node was down
+				fail("hard/up-before-cooldown-of-latest-fuse", fmt.Sprintf("breaker took the node down at %d and fired again at %d while it was down, cool-down %d, marked up at %d", takenDown, latestTrigger, c.Cool, t))
 			case fusedDown && c.Policy == "gradual" && (consecOK < c27Penalty(chain) || consecOK < 1):
 				fail("gradual/up-before-penalty", fmt.Sprintf("marked up at t=%d after %d consecutive successful round(s); penalty in force %d (consecutive bad recoveries: %d; fused at %d, previous recovery at %d)", t, consecOK, c27Penalty(chain), chain, takenDown, lastRecovery))
 			}
@@ -372,6 +375,25 @@ func TestVerif_C27(t *testing.T) {
 		walk(0)
 	}
 	rec.Set("exhaustive_space", fmt.Sprintf("all histories of %d steps over the 12-letter alphabet (W=4,min=2,cool=3), both policies: %d histories (shorter ones are prefixes)", maxLen, nEx))
+
+	// (1b) directed: the breaker fires again k seconds after the fuse while the node is still
+	// down; successful rounds every second from then on (hard: cool-down counts from the latest
+	// firing; gradual: same history, judged by its own clauses)
+	for _, pol := range []string{"hard", "gradual"} {
+		for _, cool := range []int64{2, 3, 8, 60} {
+			for _, k := range []int64{1, cool - 1, cool, cool + 2} {
+				if k < 1 {
+					continue
+				}
+				for _, re := range []string{"burst", "err"} {
+					for _, wm := range [][2]int64{{4, 2}, {8, 3}, {1, 1}} {
+						runOne(c27Case{Policy: pol, W: wm[0], Min: wm[1], Cool: cool, DownAfter: 1 << 30, FailKind: "ping", Steps: []c27Step{
+							{Op: "burst"}, {Op: "adv", D: k}, {Op: re}, {Op: "ok", N: int(cool + k + 3), D: 1}}})
+					}
+				}
+			}
+		}
+	}
 
 	// (2) random histories up to 30 steps
 	r := kit.SubRand(kit.Seed(), "C27/random")
